@@ -79,10 +79,26 @@ def gen_history(iw, rng, length):
 def run_one(iw, rng, res, gen_ops, lines, impl):
     iw.reset()
     hl, ho = ['reset'], ['ok']
+    deps = {}            # handle -> handles of the objects it was built from (what the user passed to the constructor)
+    lost = False
     for l, kind, kinds in gen_ops:
         o = hist.run_checked(iw, [l], res, 'C05', prefix=hl)[0]
         if o.startswith('ret h') and o.split(' ')[2] == 'new':
             kinds[int(o.split(' ')[1][1:])] = kind
+            if l.startswith('mk.') and not l.startswith('mk.dom'):
+                deps[int(o.split(' ')[1][1:])] = [int(t[1:]) for f in l.split('\t')[1:] for t in f.split(' ')
+                                                  if len(t) > 1 and t[0] == 'h' and t[1:].isdigit()]
+        # kept while referenced: whatever a held object was built from is still alive (no gc pass, no model involved)
+        need, todo = set(), list(iw.held)
+        while todo:
+            h = todo.pop()
+            if h not in need:
+                need.add(h); todo += deps.get(h, [])
+        dead = sorted(h for h in need if iw.weak.get(h) is None or iw.weak[h]() is None)
+        if dead and not lost:
+            lost = True
+            res.violation('lost-while-referenced', {'history': list(hl) + [l]}, 'h%s died although a held object was built from it' % dead[0],
+                          'an object is kept alive by every object that was built from it')
         if o.startswith('split '):
             for tok in o.split(' ')[1:]:
                 if tok.startswith('h') and ':' in tok:
